@@ -465,7 +465,7 @@ pub mod gen {
                 ops.push(Op::new("ctor").u("a", idx * per).u("n", per));
                 let _ = ExtTable::default();
             }
-            "C15" if idx % 40 == 3 => {
+            "C15" | "C09" | "C06" | "C18" if idx % 40 == 3 => {
                 // counter run: a maximum N, then N+300 consecutive sends of one label with nothing in between
                 // but (sometimes) failing calls; N = 255 exercises the wrap of the 8-bit counter
                 let n = *rng.pick(&[255u64, 255, 254, 1, 2, 3, 100]);
